@@ -489,7 +489,13 @@ void XMLUri::initialize(const XMLUri* const baseURI
 
     // we need to check if index has exceed the lenght or not
     if (index >= trimmedUriSpecLen)
+    {
+        // a network-path without path ("//host"): RFC 2396 5.2 #3 - the
+        // scheme is still inherited from the base URI
+        if (baseURI && !fScheme)
+            fScheme = XMLString::replicate(baseURI->getScheme(), fMemoryManager);
         return;
+    }
 
     XMLCh* pathUriSpec = (XMLCh*) fMemoryManager->allocate
     (
